@@ -19,7 +19,7 @@ def check_pins(ctx, events):
             words = [bytes(w) for w in e["out"]["words"]]
             dg = hashlib.sha256(b"\n".join(words) + b"\n").hexdigest()
             lang = e["in"]["lang"]
-            if PINS.get(lang) != dg:
+            if lang in PINS and PINS[lang] != dg:
                 slim = dict(e)
                 slim["out"] = dict(ok=True, words_sha256=dg, pinned=PINS.get(lang),
                                    first_diff="word list of '%s' differs from the pinned official list" % lang)
@@ -37,7 +37,7 @@ def slim(e):
 def judge(ctx, binp, events, what, extra_env=None):
     check_pins(ctx, events)
     bad = vlib.validate_trace(ctx, "Bip39Trace", events, stateful=True, chunk=max(150, len(events) // vlib.NCPU))
-    for e in vlib.reproduce(ctx, binp, bad, extra_env=extra_env):
+    for e in vlib.reproduce_by_trace(ctx, binp, events, bad, extra_env=extra_env):
         ctx.bad.append(dict(event=slim(e), reason=what))
 
 
